@@ -24,6 +24,7 @@ import (
 
 	jobSource "github.com/mimiro-io/datahub/internal/jobs/source"
 	"github.com/mimiro-io/datahub/internal/server"
+	"github.com/mimiro-io/datahub/internal/verifhook"
 )
 
 const defaultBatchSize = 10000
@@ -105,6 +106,9 @@ func (pipeline *FullSyncPipeline) sync(job *job, ctx context.Context) (int, erro
 
 					// write to sink
 					sinkTS := time.Now()
+					if err2 = verifhook.Fault("job.sink"); err2 != nil {
+						return err2
+					}
 					err2 = pipeline.sink.processEntities(runner, entities)
 					_ = runner.statsdClient.Timing("pipeline.sink.batch", time.Since(sinkTS), tags, 1)
 					if err2 != nil {
@@ -149,6 +153,7 @@ func (pipeline *FullSyncPipeline) sync(job *job, ctx context.Context) (int, erro
 	}
 
 	pipeline.source.EndFullSync()
+	verifhook.Point("job.full.beforeEnd")
 	err = pipeline.sink.endFullSync(ctx, runner)
 	if err != nil {
 		return entCnt, err
@@ -170,6 +175,7 @@ func (pipeline *FullSyncPipeline) sync(job *job, ctx context.Context) (int, erro
 	if pipeline.sink.GetConfig()["Type"] != "HttpDatasetSink" ||
 		(isDatasetSource && dss.LatestOnly) ||
 		pipeline.source.GetConfig()["Type"] == "MultiSource" {
+		verifhook.Point("job.full.beforeToken")
 		err = runner.store.StoreObject(server.JobDataIndex, job.id, syncJobState)
 		if err != nil {
 			return entCnt, err
@@ -294,11 +300,15 @@ func (pipeline *IncrementalPipeline) sync(job *job, ctx context.Context) (int, e
 
 					// write to sink
 					sinkTS := time.Now()
+					if err = verifhook.Fault("job.sink"); err != nil {
+						return err
+					}
 					err = pipeline.sink.processEntities(runner, entities)
 					_ = runner.statsdClient.Timing("pipeline.sink.batch", time.Since(sinkTS), tags, 1)
 					if err != nil {
 						return err
 					}
+					verifhook.Point("job.incr.afterSink")
 				}
 
 				// store token if there is one
@@ -312,6 +322,7 @@ func (pipeline *IncrementalPipeline) sync(job *job, ctx context.Context) (int, e
 					if err != nil {
 						return err
 					}
+					verifhook.Point("job.incr.afterToken")
 				}
 
 				if incomingEntityCount == 0 || // if this was the last page (empty) of a tokenized source
